@@ -114,7 +114,7 @@ def t_pa_limit(ctx):
 
 KAPPA = z3.Real('CC2FHWM')
 E2S = {k: z3.Function('e2s_' + k, z3.IntSort(), R) for k in ('ra', 'dec', 'a', 'b', 'pa')}
-BAPIX = z3.Function('beamarea_pix', z3.IntSort(), R)
+BAPIX = z3.Function('beamarea_pix_at', R, R, R)      # beam area in pixels at a sky position
 ERRV = {k: z3.Function('errv_' + k, z3.IntSort(), R) for k in ('err_peak_flux', 'err_a', 'err_b', 'err_pa', 'err_ra', 'err_dec',
                                                                 'err_int_flux')}
 
@@ -174,7 +174,7 @@ def t_result_to_components(ctx):
     helper.methods['pix2sky_ellipse'] = lambda c, s, *a: m_p2s_ellipse(c, *a)
     helper.methods['pix2sky'] = lambda c, s, p: (sym('isl_ra'), sym('isl_dec'))
     psf = Obj('psfhelper')
-    psf.methods['get_beamarea_pix'] = lambda c, s, ra, dec: _ba(c, cur)
+    psf.methods['get_beamarea_pix'] = lambda c, s, ra, dec: _ba(c, ra, dec)
     psf.methods['get_skybeam'] = lambda c, s, ra, dec: (None if c.free_branch() else Obj('Beam', a=sym('lb_a'), b=sym('lb_b'), pa=sym('lb_pa')))
     rms = SArr.fresh("rmsimg", (Rr, Cc))
     bkg = SArr.fresh("bkgimg", (Rr, Cc))
@@ -223,7 +223,7 @@ def t_result_to_components(ctx):
                      Or(And(f['a'] == Sym(E2S['a'](k)) * 3600, f['b'] == Sym(E2S['b'](k)) * 3600),
                         And(f['a'] == Sym(E2S['b'](k)) * 3600, f['b'] == Sym(E2S['a'](k)) * 3600)))
             c.oblige("post", lab + ".int_flux_formula",
-                     f['int_flux'] * Sym(BAPIX(k)) == f['peak_flux'] * (sx * sy) * Sym(lib.PI, True), timeout_ms=30000)
+                     f['int_flux'] * Sym(BAPIX(f['ra'].e, f['dec'].e)) == f['peak_flux'] * (sx * sy) * Sym(lib.PI, True), timeout_ms=30000)
             c.oblige("post", lab + ".flags_are_island_flags_or_component_flags",
                      Sym(fw.bv == (isflag.bv | fl(Sym.lift(j)))) if isinstance(fw, FlagWord) else False)
         else:
@@ -269,8 +269,10 @@ def t_result_to_components(ctx):
         ctx.oblige("post", "result_to_components.one_row_per_component", res.length == n)
 
 
-def _ba(c, cur):
-    v = Sym(BAPIX(Sym.lift(cur['j'])), True)
+def _ba(c, ra, dec):
+    if isinstance(ra, NaNType) or isinstance(dec, NaNType):
+        return c.fresh_real("beamarea_of_an_unprojectable_position")
+    v = Sym(BAPIX(Sym.lift(ra), Sym.lift(dec)), True)
     c.assume(v > 0)
     return v
 
@@ -460,8 +462,12 @@ def t_blind_numbers(ctx):
     n0 = Sym(z3.Int('isle_num_before'))
     made = []
 
+    PRELOOP = ('scalars built before the loop',)
+    seen_scalars = []
+
     def m_ifd(c, isle_num, i, scalars, offsets, doislandflux):
         made.append(isle_num)
+        seen_scalars.append(scalars)
         return Obj('IslandFittingData', isle_num=isle_num)
     class _Img(PyObj):
         """the finder's image, tracked for aliasing only: slices are views, writes through a view reach the image"""
@@ -481,7 +487,19 @@ def t_blind_numbers(ctx):
         def getattr_(s, c, name):
             if name == 'copy':
                 return Model(lambda c2: _View(None), 'ndarray.copy')
+            if name in ('flat', 'ravel', 'flatten'):
+                return s if name == 'flat' else Model(lambda c2: s, 'ndarray.' + name)
+            if name in ('max', 'min', 'mean', 'sum'):
+                return Model(lambda c2, *a, **k: c2.fresh_real('pixel_reduction'), 'ndarray.' + name)
+            if name == 'shape':
+                return (c.fresh_int('rows'), c.fresh_int('cols'))
             raise Undecided("ndarray." + name)
+
+        def getitem_(s, c, k):
+            return c.fresh_real('pixel_value')        # some pixel of the cut-out: any value
+
+        def abs_(s, c):
+            return s
     img = _Img()
     gd = Obj('gd', img=img)
     island = Obj('PixelIsland', bounding_box=[[Sym(z3.Int('bx0')), Sym(z3.Int('bx1'))], [Sym(z3.Int('by0')), Sym(z3.Int('by1'))]],
@@ -495,16 +513,20 @@ def t_blind_numbers(ctx):
         return v
     env = Env({'island': island, 'global_data': gd, 'isle_num': n0, 'island_group': group, 'innerclip': sym('ic'),
                'outerclip': sym('oc'), 'max_summits': None, 'doislandflux': False, 'self': Obj('self', log=Namespace('log')),
-               'nopositive': Sym(z3.Bool('nopositive')), 'nonegative': Sym(z3.Bool('nonegative')),
+               'nopositive': Sym(z3.Bool('nopositive')), 'nonegative': Sym(z3.Bool('nonegative')), 'scalars': PRELOOP,
                'np': lib.std_np(any=Model(m_any), isfinite=Model(lambda c, x: Opaque('finite')),
                                 nanmax=Model(lambda c, x: c.fresh_real('nanmax')), nanmin=Model(lambda c, x: c.fresh_real('nanmin')),
+                                nanargmax=Model(lambda c, x: c.fresh_int('argmax')), nanargmin=Model(lambda c, x: c.fresh_int('argmin')),
+                                argmax=Model(lambda c, x: c.fresh_int('argmax')), argmin=Model(lambda c, x: c.fresh_int('argmin')),
+                                abs=Model(lambda c, x: x if isinstance(x, PyObj) else lib.m_abs(c, x)),
+                                nansum=Model(lambda c, x: c.fresh_real('nansum')), sign=Model(lambda c, x: c.fresh_real('sign')),
                                 array=Model(lambda c, x, *a, **k: _View(None) if k.get('copy', True) is not False else x, 'np.array'),
                                 # these return their argument when no conversion is needed: the result may alias the image
                                 ascontiguousarray=Model(lambda c, x, *a, **k: x, 'np.ascontiguousarray'),
                                 asarray=Model(lambda c, x, *a, **k: x, 'np.asarray'),
                                 asanyarray=Model(lambda c, x, *a, **k: x, 'np.asanyarray')),
                'copy': Namespace('copy', deepcopy=Model(lambda c, x: _View(None)), copy=Model(lambda c, x: _View(None))),
-               'IslandFittingData': Model(m_ifd)})
+               'IslandFittingData': Model(m_ifd), 'abs': Model(lambda c, x: x if isinstance(x, PyObj) else lib.m_abs(c, x))})
     ctx.interp.relpath = FILE
     try:
         ctx.interp.exec_block(loop.body, env)
@@ -517,6 +539,12 @@ def t_blind_numbers(ctx):
                And(n1 == n0 + len(made), *[m == n0 + 1 for m in made]) if len(made) <= 1 else False)
     ctx.oblige("post", "blind.island_is_dropped_only_when_it_has_no_finite_pixel",
                len(made) == 1 or (len(anyfin) == 1 and anyfin[0] is False))
+    for sc in seen_scalars:
+        # islands are characterised with the clips in force when they were detected (the clamped flood clip): either built here from
+        # the loop's own variables, or built before the loop -- then the detection region's obligation speaks about them
+        ok_sc = sc is PRELOOP or (isinstance(sc, tuple) and len(sc) == 3 and sc[0] is env.lookup('innerclip') and sc[1] is env.lookup('outerclip')
+                                   and sc[2] is env.lookup('max_summits'))
+        ctx.oblige("post", "blind.island_is_characterised_with_the_clips_it_was_detected_with", ok_sc)
     ctx.oblige("post", "blind.masking_the_island_cut_out_never_writes_to_the_image", not img.written)
     ctx.oblige("post", "blind.fitted_island_is_queued_once", len(group) == len(made) if isinstance(group, list) else False)
 
@@ -524,6 +552,66 @@ def t_blind_numbers(ctx):
 class _Cut(PyObj):
     def setitem_(self, ctx, k, v):
         pass
+
+
+def t_summit_numbering(ctx):
+    """estimate_lmfit_parinfo: the k-th ACCEPTED summit becomes component k (prefix c<k>_), skipped summits leave no gap, and the
+    `components` entry is the number accepted"""
+    from contracts import c13
+    from contracts.c05 import AddParams
+    fn = find_function(FILE, c13.QE)
+    loop = None
+    for node in fn.body:
+        if isinstance(node, ast.For) and 'summits' in unparse(node.iter):
+            loop = node
+    if loop is None:
+        raise Undecided("summit loop not found")
+    shape = (Sym(z3.Int('R')), Sym(z3.Int('C')))
+    sshape = (Sym(z3.Int('SR')), Sym(z3.Int('SC')))
+    box = [Sym(z3.Int(n)) for n in ('xmin', 'xmax', 'ymin', 'ymax')]
+    i0 = Sym(z3.Int('i'))
+    ctx.assume(And(shape[0] >= 1, shape[1] >= 1, sshape[0] >= 1, sshape[1] >= 1, box[0] >= 0, box[2] >= 0, i0 >= 0))
+    innerclip, outerclip = sym('innerclip'), sym('outerclip')
+    ctx.assume(And(innerclip > 0, outerclip > 0))
+    psf = Obj('PSFHelper')
+    psf.methods['get_psf_pix2pix'] = lambda c, s, x, y: (sym('pb_a'), sym('pb_b'), sym('pb_pa'))
+    gd = Obj('gd', psfhelper=psf)
+    F2C = sym('FWHM2CC')
+    ctx.assume(F2C > 0)
+    g = {'np': c13.np_model(), 'flags': c13.FLAGS, 'Beam': Model(lambda c, a, b, pa: Obj('Beam', a=a, b=b, pa=pa), 'Beam'),
+         'FWHM2CC': F2C, 'CC2FHWM': sym('CC2FHWM'), 'math': Namespace('math', sqrt=Model(lib.m_sqrt)), 'abs': Model(c13.m_abs)}
+    S_ = c13.SgnArr('summit', 1, sshape)
+    am = c13.m_argmax(ctx, S_)
+    an = c13.m_argmin(ctx, S_)
+    ctx.assume(And(am >= 0, am < sshape[0] * sshape[1], an >= 0, an < sshape[0] * sshape[1]))
+    P = AddParams('P', i0)
+    # whatever the loop uses as a running index over ALL summits is a different number from the count of accepted ones
+    env = {'self': Obj('self', log=Namespace('log'), global_data=gd), 'global_data': gd, 'summit': S_,
+           'xmin': box[0], 'xmax': box[1], 'ymin': box[2], 'ymax': box[3],
+           'data': c13.SgnArr('island', 1, shape), 'rmsimg': c13.SgnArr('rmsimg', 1, shape, kind='rms'), 'isnegative': ctx.free_branch(),
+           'innerclip': innerclip, 'outerclip': outerclip, 'offsets': (Sym(z3.Int('off0')), Sym(z3.Int('off1'))),
+           'max_summits': None if ctx.free_branch() else Sym(z3.Int('max_summits')), 'i': i0, 'params': P,
+           'is_flag': 0, 'summits_considered': Sym(z3.Int('considered')), 'debug_on': False}
+    # loop variables other than the documented ones (e.g. an enumerate index) are arbitrary integers
+    targets = [n.id for n in ast.walk(loop.target) if isinstance(n, ast.Name)]
+    for k_, nm in enumerate(targets):
+        if nm not in env:
+            env[nm] = Sym(z3.Int('loop_var_' + nm))
+    out = run_stmts(ctx, FILE, c13.QE, loop.body, env, globals_=g, region_desc="one summit -> parameters: component numbering")
+    if out.kind == 'raise':
+        ctx.oblige("safe", "summits.no_exception", False)
+        return
+    i1 = out.env.lookup('i')
+    if out.kind == 'continue' or not P.added:
+        ctx.oblige("post", "summits.skipped_summit_adds_nothing_and_keeps_the_counter", And(i1 == i0, len(P.added) == 0))
+        return
+    idx = [a_[0] for a_ in P.added]
+    ctx.oblige("post", "summits.accepted_summit_becomes_component_number_accepted_so_far",
+               And(i1 == i0 + 1, *[Sym(Sym.lift(x) == i0.e) for x in idx]))
+    ctx.oblige("post", "summits.seven_parameters_per_component", sorted(a_[1] for a_ in P.added) == sorted(PNAMES))
+    # after the loop: components = i
+    tail = [st for st in fn.body if isinstance(st, ast.Expr) and "params.add('components'" in unparse(st)]
+    ctx.oblige("post", "summits.components_entry_is_the_number_accepted", len(tail) == 1 and "value=i," in unparse(tail[0]).replace(" ", "").replace("value=i,", "value=i,"))
 
 
 WFILE = "AegeanTools/wcs_helpers.py"
@@ -546,6 +634,11 @@ def t_beamarea(ctx):
         return
     ctx.oblige("post", "beamarea.is_pi_a_b_of_the_pixel_beam_at_that_position",
                And(out.value == PA * PB * Sym(lib.PI, True), len(calls) == 1 and calls[0][0] is ra and calls[0][1] is dec))
+
+
+def _detection(ctx):
+    from contracts import c01
+    return c01.t_detection_call(ctx)
 
 
 def verify(S):
@@ -573,7 +666,9 @@ def verify(S):
                ("source_finder.SourceFinder.result_to_components", t_result_to_components), ("fitting.errors", t_errors),
                ("source_finder.SourceFinder.priorized_fit_islands", t_priorized_numbers),
                ("source_finder.SourceFinder.find_sources_in_image", t_blind_numbers),
-               ("wcs_helpers.WCSHelper.get_beamarea_pix", t_beamarea)]
+               ("wcs_helpers.WCSHelper.get_beamarea_pix", t_beamarea),
+               ("source_finder.SourceFinder.estimate_lmfit_parinfo[numbering]", t_summit_numbering),
+               ("source_finder.SourceFinder.find_sources_in_image[detection]", _detection)]
     for name, fn in targets:
         if S.only and S.only not in name:
             continue
